@@ -535,4 +535,60 @@ example :
 /-- the allow-list does reject: a raw writer nobody classified is not allowed -/
 example : Obao.BarrierAllow.allowed ("internal/vault/core.go", "Core.newLeak", "Put") = false := by decide
 
+/-! ### the barrier's own reader of the keyring record (`Unseal`, `ReloadKeyring`) -/
+
+/-- **Unsealing accepts only an authentic keyring record.**  Whatever the physical backend holds under `core/keyring` —
+nothing, raw bytes of any length (in particular fewer than 4, the length of the term prefix), any header in front of any
+body — `Unseal` either fails with an error or the stored value is a record with term 1 and a known version whose body was
+sealed under the ROOT key with the keyring path as additional data (current format) and holds a keyring. There is no
+other outcome: no panic, no acceptance of bytes the barrier did not write under that key for that path. -/
+theorem unseal_accepts_only_authentic_keyring (v : Option PVal) (ts : List Nat) (h : unsealKeyring v = .ok ts) :
+    ∃ ver body, v = some (.Rec 1 ver body) ∧ (ver = 1 ∨ ver = 2) ∧ body.key = rootKeyId ∧
+      body.aad = aadFor ver keyringPath ∧ body.plain = .keyring ts := by
+  unfold unsealKeyring at h
+  split at h
+  · cases h
+  · rename_i hdr len
+    split at h
+    · cases h
+    · split at h
+      · split at h
+        · cases h
+        · split at h
+          · cases h
+          · split at h
+            · split at h <;> cases h
+            · cases h
+      · cases h
+  · rename_i t ver b
+    split at h
+    · cases h
+    · rename_i ht
+      split at h
+      · rename_i hv
+        split at h
+        · rename_i ts' ho
+          simp only [UnsealOut.ok.injEq] at h
+          subst h
+          unfold openSealed at ho
+          split at ho
+          · rename_i hk
+            simp only [Option.some.injEq] at ho
+            refine ⟨ver, b, ?_, hv, hk.1, hk.2, ho⟩
+            have : t = 1 := by simpa using ht
+            rw [this]
+          · cases ho
+        · cases h
+        · cases h
+      · cases h
+
+/-- every truncation of the record to fewer than 4 bytes is answered with an error (`short`), as are the other
+header-level tamperings — non-vacuity of the cases the real `Unseal` is driven through by stream `barrier` (op
+`reunseal`) -/
+example : unsealKeyring (some (.Raw [] 0)) = .short ∧ unsealKeyring (some (.Raw [0, 0, 0] 3)) = .short ∧
+    unsealKeyring (some (.Raw [0, 0, 0, 1] 4)) = .len ∧ unsealKeyring (some (.Raw [0, 0, 0, 2, 2] 40)) = .termMismatch ∧
+    unsealKeyring (some (.Raw [0, 0, 0, 1, 7] 40)) = .version ∧ unsealKeyring (some (.Raw [0, 0, 0, 1, 2] 40)) = .invalidKey ∧
+    unsealKeyring none = .notInit ∧ unsealKeyring (some initKeyringRec.pval) = .ok [1] ∧
+    unsealKeyring (some initRootKeyRec.pval) = .invalidKey := by decide
+
 end C01
